@@ -199,8 +199,14 @@ def final_check(name: str, obs: Observer):
     return f(obs) if f else None
 
 
-def _name_class(obs: Observer, default: str) -> str:
+def _name_class(obs: Observer, default: str, job: Optional[Tuple[int, int]] = None) -> str:
     v = obs.cur
+    if job is not None and job in v.jobs:
+        # the offending job itself has a parent whose row arrived after the job's update was committed: that mechanism explains it,
+        # whatever else happened in the history
+        cs = obs.commit_step.get((job[0], v.jobs[job]['update_id']))
+        if cs is not None and any(obs.insert_step.get((job[0], p), -1) > cs for p in v.parents.get(job, [])):
+            return 'parent-inserted-after-child-update-committed'
     if any(not v.committed(j['batch_id'], j['update_id']) and not v.parents.get((j['batch_id'], j['job_id'])) and j['state'] not in ('Pending', 'Ready')
            and j['update_id'] == 1 for j in v.jobs.values()):
         return 'ready-job-of-uncommitted-update-scheduled-in-running-group'
@@ -345,6 +351,20 @@ def c02(obs: Observer):
             per_job[k] = per_job.get(k, 0) + x
     if any(billed(a) for a in v.attempts.values()) and v.T['attempt_resources']:
         obs.tag('billed>0')
+    ws = obs.op.split()
+    if ws[0] == 'addResources' and obs.prev is not None:
+        k = (int(ws[1]), int(ws[2]), f'att{ws[3]}')
+        a0 = obs.prev.attempts.get(k)
+        new_rows = [r for r in v.T['attempt_resources'] if (r['batch_id'], r['job_id'], r['attempt_id']) == k] != \
+            [r for r in obs.prev.T['attempt_resources'] if (r['batch_id'], r['job_id'], r['attempt_id']) == k]
+        if a0 is not None and billed(a0) > 0 and new_rows:
+            job = v.jobs.get(k[:2])
+            depth = len(v.anc.get((k[0], job['job_group_id']), [])) if job else 0
+            obs.tag('resources-registered-after-billed-time')
+            if depth >= 2:
+                obs.tag('resources-registered-after-billed-time:nested-group')
+            if depth >= 3:
+                obs.tag('resources-registered-after-billed-time:group-depth>=2')
 
     def sums(table, keyf):
         out: Dict[Any, int] = {}
@@ -389,6 +409,55 @@ def c02(obs: Observer):
     return None
 
 
+def abandoned_attempt(p: View, v: View) -> Optional[Tuple[str, str]]:
+    """A Creating / Running job falls back to Ready (or gets another current attempt) only when its attempt is withdrawn: unschedule_job
+    and deactivate_instance set the end_time of that attempt first.  Otherwise the worker keeps running it while the job is scheduled
+    again: two live attempts of one job, both of which were treated as current."""
+    for k, o in p.jobs.items():
+        if o['state'] in ('Running', 'Creating') and o['attempt_id'] is not None:
+            j = v.jobs.get(k)
+            if j is None or (j['state'] == o['state'] and j['attempt_id'] == o['attempt_id']):
+                continue
+            if j['attempt_id'] == o['attempt_id'] and j['state'] in ('Running', 'Creating'):
+                continue                      # Creating -> Running of the same attempt
+            if j['state'] in TERMINAL:
+                continue                      # a job may jump to a terminal state (canceller / mark_job_errored form without attempt id);
+                #                               the orphaned-attempts loop then stops the worker
+            a = v.attempts.get((k[0], k[1], o['attempt_id']))
+            if a is not None and a['end_time'] is None:
+                return ('current-attempt-abandoned-while-open',
+                        f'job {k} was {o["state"]} with current attempt {o["attempt_id"]}; it is now {j["state"]} (attempt {j["attempt_id"]}) although '
+                        f'attempt {o["attempt_id"]} on {a["instance_name"]} has no end_time: the worker still runs it')
+    return None
+
+
+def scenario_tags(obs: 'Observer'):
+    """distribution only: which of the message-race scenarios this op is"""
+    p = obs.prev
+    ws = obs.op.split()
+    if ws[0] in ('unschedule', 'schedule', 'started', 'creating') and len(ws) > 4:
+        k = (int(ws[1]), int(ws[2]))
+        o = p.jobs.get(k)
+        att = f'att{ws[3]}'
+        if o is None:
+            return
+        rec = p.attempts.get((k[0], k[1], att))
+        if ws[0] == 'unschedule' and rec is not None:
+            if o['state'] in TERMINAL and o['attempt_id'] == att:
+                obs.tag('unschedule-of-completed-attempt')
+            elif o['state'] in ('Running', 'Creating') and o['attempt_id'] != att and rec['end_time'] is None:
+                obs.tag('unschedule-of-orphan-attempt')
+            elif o['state'] in ('Running', 'Creating') and o['attempt_id'] == att:
+                obs.tag('unschedule-of-current-attempt')
+        if ws[0] in ('schedule', 'started') and rec is None and o['state'] in ('Running', 'Creating') and o['attempt_id'] != att:
+            obs.tag('second-attempt-of-running-job')
+        if ws[0] == 'schedule' and o['state'] == 'Creating' and o['attempt_id'] == att:
+            obs.tag('schedule-of-creating-job')
+            if not o['always_run'] and p.group_cancelled(k[0], o['job_group_id']):
+                n = sum(1 for a in p.anc.get((k[0], o['job_group_id']), []) if (k[0], a) in p.cancelled)
+                obs.tag('schedule-of-creating-job-under-cancelled-group' + ('' if n == 1 else ':several-cancelled-ancestors'))
+
+
 # ---------------------------------------------------------------------------------------------------------------
 # C04  lifecycle relation + tallies recount
 
@@ -421,6 +490,7 @@ def tallies_recount(v: View, committed_only=False):
 
 def c04(obs: Observer):
     p, v = obs.prev, obs.cur
+    scenario_tags(obs)
     for k, j in v.jobs.items():
         o = p.jobs.get(k)
         if o is None:
@@ -440,6 +510,10 @@ def c04(obs: Observer):
     for k in p.jobs:
         if k not in v.jobs:
             return ('job-row-disappeared', f'job {k} disappeared')
+    ab = abandoned_attempt(p, v)
+    if ab is not None:
+        # (commit_batch_update of a non-first update rewrites the state of every job of the update, also of one that already runs)
+        return ('commit-resets-job-of-late-committed-update', ab[1]) if obs.op.startswith('commit') else ab
     rec = tallies_recount(v)
     for k, c in rec.items():
         t = v.tallies.get(k)
@@ -485,19 +559,19 @@ def c05(obs: Observer):
             obs.tag('job-with-parents')
         live = [x for x in ps if x['state'] not in TERMINAL]
         if j['state'] != 'Pending' and live:
-            return (_name_class(obs, 'job-left-pending-before-parents-finished'),
+            return (_name_class(obs, 'job-left-pending-before-parents-finished', k),
                     f'job {k} is {j["state"]} although its parent {live[0]["job_id"]} is {live[0]["state"]}')
         if j['state'] == 'Pending':
             if j['n_pending_parents'] != len(live):
-                return (_name_class(obs, 'n_pending_parents-wrong'),
+                return (_name_class(obs, 'n_pending_parents-wrong', k),
                         f'job {k}: n_pending_parents = {j["n_pending_parents"]} but {len(live)} parents are not terminal')
             if not live and ps:
-                return (_name_class(obs, 'job-stuck-pending'), f'job {k} is Pending although all {len(ps)} parents are terminal')
+                return (_name_class(obs, 'job-stuck-pending', k), f'job {k} is Pending although all {len(ps)} parents are terminal')
         failed = [x for x in ps if x['state'] in ('Failed', 'Error', 'Cancelled')]
         if failed:
             obs.tag('parent-not-succeeded')
             if not j['cancelled']:
-                return (_name_class(obs, 'child-of-failed-parent-not-marked-cancelled'),
+                return (_name_class(obs, 'child-of-failed-parent-not-marked-cancelled', k),
                         f'job {k} is not marked cancelled although parent {failed[0]["job_id"]} is {failed[0]["state"]}')
         o = p.jobs.get(k)
         if o is not None and j['state'] in ('Creating', 'Running') and o['state'] != j['state'] and not j['always_run'] and p.marked(o):
@@ -605,6 +679,7 @@ def c06_final(obs: Observer):
 def c07(obs: Observer):
     p, v = obs.prev, obs.cur
     ws = obs.op.split()
+    scenario_tags(obs)
     # (1) no start after cancel
     for k, j in v.jobs.items():
         o = p.jobs.get(k)
